@@ -7,7 +7,10 @@ product is compared with a textbook Kalman filter (``verif/oracles/kf_linear.py`
 the filter actually holds (one-step conformance, run in lock-step along every operation sequence of the announced
 depth, and along every multi-step history of tracking steps - considered by tasking / observed / not observed /
 propagated in two legs - so that nothing a call leaves behind in the filter object can change a later step unseen).
-``physics/noise.py`` builders are compared with their documented closed forms.
+``physics/noise.py`` builders are compared with their documented closed forms.  Families (D), (E) repeat the
+measurement update with the measured values / the filter's own inputs typed and held in every way numpy promotion
+distinguishes (ints, narrow ints, float32, scalars, 0-d arrays, lists, mixtures, real ``Observation`` objects): the
+reference is the float64 Kalman update on the same numbers.
 """
 from __future__ import annotations
 
@@ -51,12 +54,27 @@ RULE = (
     "forecasts and observed updates swap between the single observation and the 3-stack with the step parity, so "
     "forecast and update inside a step and like operations of consecutive steps differ in measurement dimension: "
     "whatever predict / forecast / update(no obs) / update(obs) leaves in the object meets an operation of every kind "
-    "directly, after a bare predict, and after one whole intermediate step of every body; after every operation each "
+    "directly, after a bare predict, and after one whole intermediate step of every body; "
+    "and (D) number types of the measured values: per state dimension n=1..8 two systems x two tunings (thorough: six) x "
+    "(resample off/on), one prediction then update(stack) for EVERY value kind x stack in {(1),(3),(2,1,3),(4,4),"
+    "(1,1,1,1),(2,2)} (thorough: 14 stacks), value kinds = the same whole / non-whole numbers held as Python ints, "
+    "Python-int lists, int64 / int32 / int16 arrays, numpy int scalars, 0-d int arrays, int64 then int32 across the "
+    "stack, float64, Python floats, float lists, float32, numpy float scalars, 0-d float arrays, whole-number float64 "
+    "/ float32, int and float mixed inside one observation (array / list), int-typed and float-typed observations "
+    "alternating along the stack (both orders, also with float32 / int16), and real Observation objects (library "
+    "Measurement over linear MeasurementTypes) whose value columns hold ints / floats / whole floats / a mixture; 9 "
+    "kinds make the stacked true_y an integer array; and (E) the filter's own inputs as integer arrays of whole "
+    "numbers: initial estimate, initial covariance, Q, R each alone and all together as int64 / int32 (and all "
+    "float64) x measured values float64 / Python ints (all-together rows also whole floats / int32) along the fixed "
+    "sequence P.Ub.P.Ua.P.U0.P.Fb.Ua.P.Fa.Ub with the result-object mirror; every product of (D), (E) is compared "
+    "with the float64 Kalman reference on the same numbers with the tolerances of (A), and the estimate / innovation "
+    "must be floating-point vectors; after every operation each "
     "product of the real filter (pred_x, pred_p, mean_pred_y, innov_cvr, cross_cvr, kalman_gain, est_p, est_x, "
     "innovation, nis, r_matrix, sigma points, time, source, flags) is compared with a textbook Kalman filter started "
     "from the state the filter held before the operation, and the same operation is replayed on a pickled copy whose "
     "result object is applied to a mirror filter that must stay bitwise equal. non-trivial = stack of >= 2 "
-    "observations, or resample on, or a sequence of >= 2 operations, a history prefix already walked by (B) is judged "
+    "observations, or resample on, or a sequence of >= 2 operations, or in (D), (E) any representation other than "
+    "float64 ndarrays, a history prefix already walked by (B) is judged "
     "again but not counted again (weights: kappa defaulted or alpha < 1; sigma "
     "points: full/ill-conditioned covariance or custom root; noise builders: dt != 1 and magnitude != 1); distinct by "
     "construction (lattice points / tree nodes)."
@@ -64,7 +82,8 @@ RULE = (
 ASSUMPTIONS = [
     "numpy dense linear algebra (matmul, solve, cholesky, eigvalsh) is the reference arithmetic",
     "julianDateToDatetime (C05) is only required not to raise; the stubs ignore the datetime",
-    "residuals()/angularMean (C16) are exercised only on non-angular components",
+    "residuals()/angularMean (C16) are exercised only on non-angular components (with every value type of family (D))",
+    "Observation / Measurement (real objects in family (D)) only store and hand back the values they were given",
     "the documented no-redraw variant is K = (P- - Q) H^T (H (P- - Q) H^T + R)^-1, P+ = P- - K S K^T (DESIGN C06)",
 ]
 EXPECT_MIN_NONTRIVIAL = 2000
@@ -149,6 +168,17 @@ def bounds(tier, seed):
             "2 steps for tuning indices with (index - n - F kind) mod 3 == 1 (two of six per system), 1 step for the rest"
         ) + "; both resample modes; stacks a (forecast) / b (observed update) on even steps, swapped on odd steps, the "
         "second forecast of a step takes the update's stack; every prefix is judged step by step",
+        "number_types_value_kinds": VALUE_KINDS,
+        "number_types_integer_true_y_kinds": INT_ONLY_KINDS,
+        "number_types_stacks": [list(c) for c in (DTYPE_COMPS_Q if tier == "quick" else DTYPE_COMPS_T)],
+        "number_types_systems_per_n": "F/P/Q/R kinds " + str([list(x) for x in _dtype_systems(1, seed)]) + " for n = 1, "
+        "rotating with n; tunings " + ("two of four per system, rotating with n" if tier == "quick" else "all six")
+        + "; both resample modes; measured values = 4 y (non-whole) or round(4 y) (whole), |.| <= 12",
+        "input_types_casts": [name for name, _, _ in INPUT_CASTS],
+        "input_types_value_kinds": {"one integer input": INPUT_VALUE_KINDS_SINGLE, "float64 / all integer": INPUT_VALUE_KINDS},
+        "input_types_sequence": ".".join(INPUT_SEQUENCE),
+        "input_types_note": "whole-number x0, P0, Q, R of the four covariance kinds (ill-conditioned: standard "
+        "deviations 1..1000), stacks a / b as in the sequence explorer",
         "phase_seed": seed,
     }
 
@@ -1001,7 +1031,8 @@ INPUT_CASTS = [
     ("all_int64", {"x0": np.int64, "p0": np.int64, "q": np.int64}, np.int64),
     ("all_int32", {"x0": np.int32, "p0": np.int32, "q": np.int32}, np.int32),
 ]
-INPUT_VALUE_KINDS = ["np_float64", "py_int", "whole_float", "np_int32"]
+INPUT_VALUE_KINDS = ["np_float64", "py_int", "whole_float", "np_int32"]  # with float64 / all-integer inputs
+INPUT_VALUE_KINDS_SINGLE = ["np_float64", "py_int"]  # with one integer-typed input
 INPUT_SEQUENCE = ["P", "Ub", "P", "Ua", "P", "U0", "P", "Fb", "Ua", "P", "Fa", "Ub"]
 
 
@@ -1100,7 +1131,8 @@ def _run_intinputs(res, item):
         for tuning in _dtype_tunings(tier, n, k):
             for resample in (False, True):
                 for name, casts, r_dtype in INPUT_CASTS:
-                    for kind in INPUT_VALUE_KINDS:
+                    single = len(casts) + (r_dtype is not None) == 1
+                    for kind in INPUT_VALUE_KINDS_SINGLE if single else INPUT_VALUE_KINDS:
                         sysm.casts, sysm.r_dtype, sysm.value_kind = dict(casts), r_dtype, kind
                         ctx = Ctx(res, sysm, tuning, resample, item)
                         ctx.family = f"inputs_{name}"
